@@ -29,7 +29,7 @@ WORKERS = {"quick": 8, "thorough": 16}
 BUDGET = {"quick": 60, "thorough": 1200}
 EXHAUSTIVE = {"quick": False, "thorough": True}
 N_FRAMES = 6
-FMTS = ["h5", "xtc", "xtc9", "trr", "dcd", "dcd0", "dcd4", "dcdfix", "nc", "mdcrd", "mdcrd-nobox", "xyz", "xyz-foreign", "xyz.gz", "lammpstrj", "dtr", "arc"]
+FMTS = ["h5", "xtc", "xtc9", "trr", "dcd", "dcd0", "dcd4", "dcdfix", "mdcrd-hasbox", "mdcrd-nobox20", "nc", "mdcrd", "mdcrd-nobox", "xyz", "xyz-foreign", "xyz.gz", "lammpstrj", "dtr", "arc"]
 # dcd0 = DCD whose header frame count was never patched (0); dcd4 = CHARMM 4-dimensional DCD (see vlib/gen/files.py);
 # mdcrd-nobox = MDCRD without box lines (the default files carry a cell)
 # gro is not seekable (seek raises NotImplementedError) and is not in the property's list: not judged here.
@@ -42,6 +42,7 @@ ASSUMPTIONS = ["a full read() through a fresh handle is the reference for frame 
 
 _TMP = None
 _CACHE = {}
+_OPENKW = {}
 
 
 def worker_init(tier, seed):
@@ -132,9 +133,13 @@ def _file_for(fmt):
         if os.environ.get("VERIF_REPO"):
             path = os.path.join(os.environ["VERIF_REPO"], "tests/data/4waters.arc")
     else:
-        ext = {"xtc9": "xtc", "dcd0": "dcd", "dcd4": "dcd", "dcdfix": "dcd", "mdcrd-nobox": "mdcrd", "xyz-foreign": "xyz"}.get(fmt, fmt)
-        na = 6 if fmt in ("xtc9",) else 12
-        t = files.ident_traj(N_FRAMES, na, cell=None if fmt in ("dcd4", "dcdfix", "mdcrd-nobox") else "ortho")
+        ext = {"xtc9": "xtc", "dcd0": "dcd", "dcd4": "dcd", "dcdfix": "dcd", "mdcrd-nobox": "mdcrd", "mdcrd-hasbox": "mdcrd",
+               "mdcrd-nobox20": "mdcrd", "xyz-foreign": "xyz"}.get(fmt, fmt)
+        # mdcrd lines hold 10 numbers: 10 and 20 atoms end a frame on a full line; those two variants also tell the reader
+        # up front whether box lines are present (has_box=) instead of letting it detect them
+        na = {"xtc9": 6, "mdcrd-hasbox": 10, "mdcrd-nobox20": 20}.get(fmt, 12)
+        _OPENKW[fmt] = {"mdcrd-hasbox": dict(has_box=True), "mdcrd-nobox20": dict(has_box=False)}.get(fmt, {})
+        t = files.ident_traj(N_FRAMES, na, cell=None if fmt in ("dcd4", "dcdfix", "mdcrd-nobox", "mdcrd-nobox20") else "ortho")
         path = os.path.join(_TMP, f"f_{fmt}.{ext}")
         t.save(path)
         if fmt == "xyz-foreign":
@@ -147,7 +152,7 @@ def _file_for(fmt):
         elif fmt == "dcdfix":
             os.rename(path, path + ".all")
             files.dcd_make_fixed(path + ".all", path, na, N_FRAMES)
-    with md.open(path, **files.open_kwargs(ext, na)) as fh:
+    with md.open(path, **files.open_kwargs(ext, na), **_OPENKW.get(fmt, {})) as fh:
         R = np.array(files.coords_of(ext, fh.read()))
     if fmt != "arc":
         f, a = files.identify(R / files.FORMATS[ext]["unit"])
@@ -176,7 +181,7 @@ def run_case(case, ctx):
     ctx.observe("atom_indices", case["ai"])
     nh = 1 + max(h for h, _, _ in case["ops"])
     ctx.observe("handles", nh)
-    handles = [md.open(path, **files.open_kwargs(ext, na)) for _ in range(nh)]
+    handles = [md.open(path, **files.open_kwargs(ext, na), **_OPENKW.get(fmt, {})) for _ in range(nh)]
     pos = [0] * nh
     last = ["open"] * nh
     off = {}
